@@ -98,6 +98,12 @@ func c18Conf(c *fw.Case) (o fw.Outcome) {
 		cfg.GnbID = textOctets(r, len(cfg.GnbID))
 		o.Tag("text-like-gnb-id")
 	}
+	if r.Intn(5) == 0 { // white space inside a scalar is content: a TAB in the middle of a value, escaped or literal
+		cfg.LiteralTab = r.Intn(3) != 0
+		cfg.GnbID[r.Intn(len(cfg.GnbID))] = 0x09
+		cfg.GnbName = pick(r, "gNB\tUPM", "a\t", "\tb", "a \t b", "\t\t")
+		o.Tag(fmt.Sprintf("tab-in-value:literal=%v", cfg.LiteralTab))
+	}
 	// strings made of characters that shells, environment expansion, printf-style formatting and YAML itself treat
 	// specially: a configuration VALUE is data, whatever it looks like (the file is written with proper YAML quoting)
 	if r.Intn(2) == 0 {
